@@ -983,6 +983,7 @@ pub fn generate(rng: &mut Rng, cfg: &GenCfg) -> ProgramAst {
                     3 => format!("m {i}.oal"),
                     4 => format!("mé{i}.oal"),
                     5 => format!("sub dir/m{i}.oal"),
+                    6 => format!("m+v{i}.oal"),
                     _ => format!("m{i}.oal"),
                 }
             },
